@@ -558,6 +558,19 @@ fn row_sig(rows: &[Tuple], flush_mask: u8) -> String {
     }
 }
 
+/// Stable identity of one failing input: failure mode (first path component of the class) + exact rows + flush
+/// pattern + batch flag. The known-findings protocol lists the failing INPUTS of the unchanged tree in
+/// known_inputs/C12.txt (one hash per line); a failing input that is not listed is reported under its own class.
+fn input_hash(class: &str, rows: &[Tuple], flush_mask: u8, batch: bool) -> u64 {
+    let mode = class.split(':').next().unwrap_or("");
+    fnv(format!("{mode}|{rows:?}|{flush_mask}|{batch}").as_bytes())
+}
+
+fn load_known_inputs() -> std::collections::HashSet<u64> {
+    let p = verif_root().join("known_inputs").join("C12.txt");
+    std::fs::read_to_string(p).unwrap_or_default().lines().filter_map(|l| u64::from_str_radix(l.trim(), 16).ok()).collect()
+}
+
 fn row_kinds(rows: &[Tuple]) -> String {
     // column-wise kind signature: homogeneous columns vs mixed
     let ar = rows[0].arity();
@@ -619,6 +632,10 @@ pub fn c12(args: &Args) -> i32 {
         }
     }
     run.put("cases", json!(cases.len()));
+    let known_inputs = load_known_inputs();
+    run.put("listed_known_failing_inputs", json!(known_inputs.len()));
+    // maintenance aid (never set by the registered commands): dump the hashes of all failing inputs of this run
+    let dump = std::env::var("VERIF_C12_DUMP_INPUTS").ok().map(|p| std::sync::Mutex::new(std::fs::File::create(p).expect("dump file")));
     let done = run.par_for(cases.len(), threads(), |i, l| {
         let (rows, mask, batch) = &cases[i];
         l.eval();
@@ -630,7 +647,20 @@ pub fn c12(args: &Args) -> i32 {
                     run.sample(json!({"rows": rows.iter().map(show_t).collect::<Vec<_>>(), "flush_mask": mask, "batch": batch}));
                 }
             }
-            Some((class, detail)) => run.violation(&class, json!({"rows": rows, "flush_mask": mask, "batch": batch}), detail),
+            Some((class, detail)) => {
+                let hsh = input_hash(&class, rows, *mask, *batch);
+                if let Some(f) = &dump {
+                    use std::io::Write;
+                    let _ = writeln!(f.lock().unwrap(), "{hsh:016x}");
+                }
+                if known_inputs.contains(&hsh) {
+                    // one of the enumerated failing inputs of the unchanged tree: reported under the coarse listed class
+                    run.violation(&format!("listed_input:{class}"), json!({"rows": rows, "flush_mask": mask, "batch": batch}), detail);
+                } else {
+                    let ordered: Vec<String> = rows.iter().map(|r| r.values().iter().map(kind).collect::<Vec<_>>().join(",")).collect();
+                    run.violation(&format!("{class}[{}]", ordered.join(">")), json!({"rows": rows, "flush_mask": mask, "batch": batch}), detail);
+                }
+            }
         }
     });
     run.put("states", json!(done));
